@@ -44,12 +44,12 @@ def coq_base(b, ms=None):
 
 def coq_world(world, ms=None):
     rows = []
-    for cid, ob, mro in world:
+    for cid, ob, mro, params in world:
         if cid == 4:
-            o = 'Some wdm_own_bases'
+            o, params = 'Some wdm_own_bases', [0]
         else:
             o = 'None' if ob is None else 'Some ' + coq_list([coq_base(b, ms) for b in ob])
-        rows.append(f'({nat(cid)}, {o}, {coq_list([nat(m) for m in mro])})')
+        rows.append(f'({nat(cid)}, {o}, {coq_list([nat(m) for m in mro])}, {toks(params)})')
     return coq_list(rows)
 
 
@@ -167,7 +167,7 @@ def resolve(defs, d):
 def effective_defs(case, world, names):
     """[(dir name, definition)] in dir() order; None when a name cannot be accounted for"""
     by_id = {c['id']: c for c in case['classes']}
-    mro = next(m for cid, ob, m in world if cid == case['inst'])
+    mro = next(w[2] for w in world if w[0] == case['inst'])
     table = {}
     for cid in mro:
         c = by_id.get(cid)
@@ -326,8 +326,8 @@ def gen_tv(rng, tier):
         if chain_expect:
             case['shape'], case['full'] = chain_expect, True
     elif kind == 'chain':
-        # the binding base got its parameters through forwarding / partially binding classes (full statement; region of the
-        # known findings K-C20-forwarding-chain / K-C20-partially-binding-chain)
+        # the binding base got its parameters through forwarding / partially binding classes (region of the fixed findings
+        # K-C20-forwarding-chain / K-C20-partially-binding-chain)
         cur = direct_class(tvs)
         cur_params = list(tvs)
         mapping = {t: t for t in tvs}
@@ -838,7 +838,7 @@ def run(tier, seed, replay=None):
                 nontrivial = len(c['classes']) >= 2
                 if g:
                     glue.append({'case': c, 'what': g})
-                if not m_meets and not c.get('full'):      # full: region of the refuted statement
+                if not m_meets:
                     meets_fail.append({'case': c, 'model': m})
             else:
                 corr, prop, what, claimed, no_dd, m_ok, bad, no_raise = judge_dm(c, r, m)     # no_dd: outside every known-finding region
